@@ -2,7 +2,8 @@ From Coq Require Import String List ZArith QArith Qabs Bool.
 From TT Require Import Base.Outcome Base.Str Base.F64 Base.GoParse
      Trackaddict.Units Trackaddict.Columns.
 Import ListNotations.
-Open Scope string_scope.
+Local Open Scope string_scope.
+Local Open Scope Z_scope.
 
 Definition dual_quantities : list (string * string * conv) :=
   [ ("Speed (MPH)", "Speed (Km/h)", Mi2Km);
